@@ -3,6 +3,7 @@ package compiler
 import (
 	"fmt"
 	"math"
+	"strings"
 
 	"github.com/glyphlang/glyph/pkg/ast"
 )
@@ -102,6 +103,44 @@ func (o *Optimizer) OptimizeExpression(expr ast.Expr) ast.Expr {
 	}
 }
 
+// forget drops every fact that depends on the current value of name: its own
+// constant and copy, the copies made *of* it, and the remembered expressions
+// that mention it or are held by it. An assignment to a variable used to drop
+// only the facts about the target itself, so after `$ a = q` and `q = 5` the
+// optimizer still replaced a by q, and after `$ a = q + 1`, `q = 7` it still
+// replaced a second `q + 1` by a.
+func (o *Optimizer) forget(name string) {
+	delete(o.constants, name)
+	delete(o.copies, name)
+	for target, source := range o.copies {
+		if source == name {
+			delete(o.copies, target)
+		}
+	}
+	mention := "var:" + name
+	for key, holder := range o.expressions {
+		if holder == name || exprKeyMentions(key, mention) {
+			delete(o.expressions, key)
+		}
+	}
+}
+
+// exprKeyMentions reports whether an exprKey contains the operand token
+// (e.g. "var:x"), delimited by the key's spaces and parentheses.
+func exprKeyMentions(key, token string) bool {
+	for rest := key; ; {
+		i := strings.Index(rest, token)
+		if i < 0 {
+			return false
+		}
+		end := i + len(token)
+		if end == len(rest) || rest[end] == ' ' || rest[end] == ')' {
+			return true
+		}
+		rest = rest[end:]
+	}
+}
+
 // OptimizeStatements optimizes a list of statements
 func (o *Optimizer) OptimizeStatements(stmts []ast.Statement) []ast.Statement {
 	if o.level == OptNone {
@@ -121,6 +160,8 @@ func (o *Optimizer) OptimizeStatements(stmts []ast.Statement) []ast.Statement {
 		case *ast.AssignStatement:
 			// Optimize the value expression
 			optimizedValue := o.OptimizeExpression(s.Value)
+			// The target gets a new value: what was known through its old one is gone.
+			o.forget(s.Target)
 
 			// Copy propagation: track variable-to-variable assignments
 			if varExpr, ok := optimizedValue.(*ast.VariableExpr); ok {
@@ -141,7 +182,7 @@ func (o *Optimizer) OptimizeStatements(stmts []ast.Statement) []ast.Statement {
 							optimizedValue = &ast.VariableExpr{Name: existingVar}
 							// Now it's a copy
 							o.copies[s.Target] = existingVar
-						} else {
+						} else if !exprKeyMentions(key, "var:"+s.Target) {
 							// Track this expression
 							o.expressions[key] = s.Target
 						}
@@ -166,6 +207,8 @@ func (o *Optimizer) OptimizeStatements(stmts []ast.Statement) []ast.Statement {
 		case *ast.ReassignStatement:
 			// Optimize the value expression (same logic as AssignStatement)
 			optimizedValue := o.OptimizeExpression(s.Value)
+			// The target gets a new value: what was known through its old one is gone.
+			o.forget(s.Target)
 
 			// Copy propagation: track variable-to-variable assignments
 			if varExpr, ok := optimizedValue.(*ast.VariableExpr); ok {
@@ -186,7 +229,7 @@ func (o *Optimizer) OptimizeStatements(stmts []ast.Statement) []ast.Statement {
 							optimizedValue = &ast.VariableExpr{Name: existingVar}
 							// Now it's a copy
 							o.copies[s.Target] = existingVar
-						} else {
+						} else if !exprKeyMentions(key, "var:"+s.Target) {
 							// Track this expression
 							o.expressions[key] = s.Target
 						}
@@ -211,6 +254,8 @@ func (o *Optimizer) OptimizeStatements(stmts []ast.Statement) []ast.Statement {
 		case ast.ReassignStatement:
 			// Same as *ast.ReassignStatement
 			optimizedValue := o.OptimizeExpression(s.Value)
+			// The target gets a new value: what was known through its old one is gone.
+			o.forget(s.Target)
 
 			if varExpr, ok := optimizedValue.(*ast.VariableExpr); ok {
 				o.copies[s.Target] = varExpr.Name
@@ -224,7 +269,7 @@ func (o *Optimizer) OptimizeStatements(stmts []ast.Statement) []ast.Statement {
 						if existingVar, ok := o.expressions[key]; ok {
 							optimizedValue = &ast.VariableExpr{Name: existingVar}
 							o.copies[s.Target] = existingVar
-						} else {
+						} else if !exprKeyMentions(key, "var:"+s.Target) {
 							o.expressions[key] = s.Target
 						}
 					}
